@@ -2,7 +2,7 @@
    no legacy switch and no refutation of the code here; the last example shows
    that the injectivity hypothesis of the cache/token theorems is needed. *)
 From Coq Require Import ZArith List Bool.
-From Verif Require Import C07.Model C07.Proofs.
+From Verif Require Import C07.Model C07.Proofs C07.Timed.
 Import ListNotations.
 Open Scope Z_scope.
 
@@ -397,3 +397,67 @@ Example ex_reconf_stale_gate_would_violate :
   spec_pass (cf_logic (fst (config_after (cf_or, bc_off) (firstn 4 rhist1)))) VExecute VBlock = false /\
   g_blocked (gate (cf_logic cf_or) VExecute VBlock) = false.
 Proof. vm_compute. split; reflexivity. Qed.
+
+(* ---- timed histories ---- *)
+
+Definition cf_xp := mkConfig LExecPrio [89] true 5 1000.
+
+Definition tshape (e : tev) :=
+  match rreply (snd e) with
+  | Some (_, _, r) => (fst e, r_cached r, c_blocked (r_core r), rdone_at (snd e))
+  | None => (fst e, false, false, None)
+  end.
+
+(* c07_timed_late_verdict_is_the_verdict / c07_timed_pass_only_if: EXECUTOR_PRIORITY, timeout 2; the
+   executor says EXECUTE at once, the assessor needs 50 (25 timeouts) and says BLOCK: blocked, the reply
+   produced at 50.  With a slow DEFER instead the request passes (on the executor's strength), at 101.
+   The entries are stamped when the replies were produced: at 54 the first prompt is still served from
+   the cache (54 - 50 < ttl 5) although 54 - 0 is far beyond the TTL, at 55 it is decided anew. *)
+Definition thist1 : list top :=
+  [ TSlow (mkReq [97] 0 VExecute VBlock) (mkDl 0 50);
+    TSlow (mkReq [98] 1 VExecute VDefer) (mkDl 40 60);
+    TPlain (RX (XAtomic (OReq (mkReq [97] 54 VExecute VPermit))));
+    TSetTimeout 1000;
+    TSlow (mkReq [97] 55 VExecute VPermit) (mkDl 1 1) ].
+
+Example ex_timed_late_block :
+  map tshape (ttrace hash_x (fun p => p) 2 cf_xp bc_off thist1)
+  = [ (2, false, true, Some 50); (2, false, false, Some 101); (2, true, true, Some 54);
+      (1000, false, false, None); (1000, false, false, Some 57) ] /\
+  elapsed (mkReq [97] 0 VExecute VBlock) (mkDl 0 50) = 50 /\
+  spec_pass LExecPrio VExecute VBlock = false /\ spec_pass LExecPrio VExecute VDefer = true /\
+  tconfig_after (2, (cf_xp, bc_off)) (firstn 4 thist1) = (1000, (cf_xp, bc_off)).
+Proof. vm_compute. repeat split; reflexivity. Qed.
+
+(* Had the loop replaced an answer that came after timeout_seconds by an abstention (DEFER), the first
+   request of [thist1] would have come back not blocked although the assessor's verdict was BLOCK. *)
+Example ex_timed_abstention_would_violate :
+  g_blocked (gate LExecPrio VExecute VDefer) = false /\ g_blocked (gate LExecPrio VExecute VBlock) = true.
+Proof. vm_compute. split; reflexivity. Qed.
+
+(* c07_timed_timeout_is_inert / c07_timed_plain_is_reconf / c07_timed_loops_isolated on concrete histories;
+   an executor that raises: the assessor is not asked and its delay does not count *)
+Example ex_timed_inert :
+  untimed (ttrace hash_x (fun p => p) 2 cf_xp bc_off thist1)
+  = untimed (ttrace hash_x (fun p => p) 30000 cf_xp bc_off (map (retime (fun _ => 0)) thist1)) /\
+  ttrace hash_x (fun p => p) 7 cf_or bc_off (map TPlain rhist1)
+  = map (pair 7) (rtrace hash_x (fun p => p) cf_or bc_off rhist1) /\
+  map tshape (ttrace hash_x (fun p => p) 2 cf_xp bc_off [TSlow (mkReq [97] 3 VRaised VPermit) (mkDl 10 500)])
+  = [ (2, false, true, Some 13) ] /\
+  proj true (tsys_trace hash_x (fun p => p) 1 2 cf_or cf_xp bc_off bc_off
+               [ (true, TSetTimeout 9); (false, TSlow (mkReq [97] 0 VExecute VBlock) (mkDl 3 3));
+                 (true, TSlow (mkReq [97] 0 VExecute VBlock) (mkDl 5 5)) ])
+  = ttrace hash_x (fun p => p) 2 cf_xp bc_off [TSetTimeout 9; TSlow (mkReq [97] 0 VExecute VBlock) (mkDl 5 5)].
+Proof. vm_compute. repeat split; reflexivity. Qed.
+
+(* c07_timed_instant_is_request / c07_timed_slow_is_begin_end: hypotheses met (no delay; delays with
+   [slow_id] not in flight), both outcomes of the first half (asked / served from the cache) *)
+Example ex_timed_steps :
+  elapsed (mkReq [97] 0 VExecute VPermit) (mkDl 0 0) = 0 /\
+  pending_find slow_id [(0, mkReq [98] 0 VExecute VPermit)] = None /\
+  (exists x rp, slow_step hash_x (fun p => p) cf_and bc_off (([], brk0), []) (mkReq [97] 0 VExecute VPermit) (mkDl 2 2)
+                = (x, EvCompleted slow_id (mkReq [97] 0 VExecute VPermit) 4 rp)) /\
+  (exists x rp, slow_step hash_x (fun p => p) cf_and bc_off
+                  (([([97], (mkCore true ASuccess false None, 0))], brk0), []) (mkReq [97] 1 VBlock VBlock) (mkDl 2 2)
+                = (x, EvReturned slow_id (mkReq [97] 1 VBlock VBlock) rp true)).
+Proof. vm_compute. repeat split; try reflexivity; do 2 eexists; reflexivity. Qed.
